@@ -357,4 +357,33 @@ def run(ctx, config):
                        "%s is released here and %s still points to it when `%s` (line %d) uses the buffer: use-after-free / double free"
                        % (show(a), show(a), show(w.e)[:60], w.line))
     rules.append(r3)
+    # ---- immutability is for the life of the chain
+    r5 = Rule("C15-immutable-sticky", "K2", "no store clears EVBUFFER_IMMUTABLE from a chain's flags: memory the buffer does not own stays read-only until the chain is released", floor=3)
+    IMM = None
+    for f in P.fns_in("buffer.c"):
+        for el, lhs, op, rhs in f.stores():
+            if fields_of(lhs)[-1:] != ["evbuffer_chain.flags"]:
+                continue
+            for q in walk(rhs):
+                if is_e(q, "int") and len(q) > 2 and q[2] == "EVBUFFER_IMMUTABLE":
+                    IMM = q[1]
+    if IMM is None:
+        r5.brk("EVBUFFER_IMMUTABLE is not set anywhere in buffer.c")
+    else:
+        for f in P.fns_in("buffer.c"):
+            for el, lhs, op, rhs in f.stores():
+                if fields_of(lhs)[-1:] != ["evbuffer_chain.flags"]:
+                    continue
+                clears = None
+                if op == "&=":
+                    try:
+                        m = evalx(rhs, {}, P)
+                        clears = isinstance(m, int) and not (m & IMM)
+                    except EvalError:
+                        clears = None
+                r5.inst((f.name, el.n), {"fn": f.name, "site": el.where(), "store": show(el.e)[:70], "clears_immutable": clears}, nontrivial=(op in ("&=", "|=")))
+                if clears:
+                    r5.bad("K2:%s:clears-immutable" % f.name, el.where(), f.name,
+                           "`%s` removes EVBUFFER_IMMUTABLE from a chain: if the chain refers to memory the buffer does not own (evbuffer_add_reference, a file segment, another buffer's chain) later adds/prepends/realigns write into that memory" % show(el.e)[:60])
+    rules.append(r5)
     return rules
